@@ -26,7 +26,7 @@ CHECKS = {
          "peers acknowledge everything and keep reading; offline/resume behaviour belongs to C08; in concurrent runs a delivery may carry the uncapped publish QoS when the client's own unsubscribe fell between publish and delivery (recorded, not asserted)", "2-C06"),
  "C20": ("exploration", "wire byte recorder (zero bytes before CONNECT), per-connection backend hook trace, response multiset matching behind a SUBSCRIBE fence through the ack queue",
          "exhaustive over all packet-kind sequences of length 1-3 x 4 credential situations written in one burst, hostile first frames, 1.5k (quick) / 120k (thorough) random pipelines of up to 40 packets with repeating ids",
-         "responses to requests preceding a connection-closing packet in the same burst may be lost with the connection; only unsolicited packets are judged there", "2-C20"),
+         "acknowledgements that travel through the ack queue for requests preceding a connection-closing packet in the same burst may be lost with the connection; CONNACK and PINGRESP must still arrive; nothing unsolicited may appear", "2-C20"),
  "C11": ("exploration", "reference retained-map model; probe subscribers, live observer, offline persistent subscriber and '#' checkpoints compared behind marker fences",
          "120 (quick) / 2500 (thorough) histories of 14-28 steps: retained/plain/empty publishes, retained wills of dropped victims, subscriptions cycling through all 105 filters of the depth<=3 universe; 12/120 stalled-victim runs (own queue full, retained will must survive); 150 (quick) / 3000 (thorough) concurrent runs in which 3-8 subscribers subscribe while a publisher streams 40-100 numbered retained values under backend load (replayed value + live values must be gap-free)",
          "per-filter replay of one SUBSCRIBE may arrive 1..k times; QoS 0 publishes for an offline persistent subscriber may be dropped", "2-C11"),
@@ -40,7 +40,7 @@ CHECKS = {
          "1200 (quick) / 20000 (thorough) streams: windows 1-10, 1..20 x window messages, QoS mixes incl. pure QoS 0, batched / reversed / half-way QoS 2 acknowledgement policies, drop+resume at a PRNG point; 12/120 idle-first runs (idle longer than the token timeout, then saturate the window and acknowledge in time)",
          "the subscriber only acknowledges what it received and releases withheld acknowledgements when its window is full; hook commit adds broker/verif_hooks.go behind the verif tag", "2-C16"),
  "C12": ("fault_enumeration", "count of Backend.Publish calls with the will's content on behalf of the dying client after its Closed() fired, cross-checked with online, offline-persistent and late (retained) observers behind marker fences",
-         "full matrix of 19 termination causes x 5 protocol states (applicable pairs) x will QoS 0-2 x retain = 390 scenarios, 3 (quick) / 100 (thorough) repetitions for schedule diversity; keep-alive expiry also with a silent victim under steady outbound traffic",
+         "full matrix of 19 termination causes x 5 protocol states (applicable pairs) x will QoS 0-2 x retain = 390 scenarios, 3 (quick) / 100 (thorough) repetitions for schedule diversity; keep-alive expiry also with a silent victim under steady outbound traffic; 24/400 runs with an online observer whose window and queue are full when the victim dies",
          "DISCONNECT racing with another cause is judged by what the broker logged as received; a processor blocked on a token ends at the token timeout", "2-C12"),
  "C13": ("exploration", "online assertions at the backend boundary (Setup return: no other set-up client of the id without Terminate; CONNACK pre-send: every older client of the id terminated), PINGREQ liveness probe (exactly one survivor), session-present replay in recorded Setup order, Terminate counts, displaced will count, VerifSnapshot bookkeeping, no-loss/no-second-new-delivery for persistent parties, goroutine-profile stuck detector, race detector",
          "1200 (quick) / 25000 (thorough) rounds of 2-8 simultaneous CONNECTs with one id (clean/unclean mixed) against an absent / idle / mid-handshake / token-starved / concurrently dying old connection with concurrent QoS 1 traffic and backend-boundary perturbation; 2-6 blocked-in-send rounds (known finding)",
@@ -49,13 +49,13 @@ CHECKS = {
          "24 (quick) / 500 (thorough) brokers x 36 hostile streams of 9 kinds run 6 at a time with backend-boundary perturbation; MemoryBackend.Close at every backend hook-call index 1..40 of two concurrent sessions; every backend hook failing at its 1st-4th call before/after; takeover hitting KillTimeout",
          "hostile peers keep reading and never use a witness's client id; process death is turned into a violation by the driver from the journal", "2-C14"),
  "C15": ("exploration", "sequence numbers in payloads with an offline order checker per (publisher, publish QoS, delivered QoS, subscriber); retransmission order compared with the sender-side send log of the previous connection (broker and client library); first-arrival order over cut-and-resume cycles; callback order and service command order against a scripted broker",
-         "60/1500 end-to-end runs (1-8 pipelining publishers, 1-4 subscribers, windows 1-10, perturbation), 150/4000 broker resend runs, 200/5000 backlog cut-and-resume runs (with acknowledgements out of the middle of the window before the cut), 150/3000 client resend runs, 100/2000 client inbound runs, 80/1500 service command runs (quick/thorough)",
+         "60/1500 end-to-end runs (1-8 pipelining publishers, 1-4 subscribers, windows 1-10, perturbation), 150/4000 broker resend runs, 200/5000 backlog cut-and-resume runs (with acknowledgements out of the middle of the window before the cut), 150/3000 client resend runs, 100/2000 client inbound runs, 80/1500 service command runs, 60/1200 service command runs with the connection cut after every k-th command (quick/thorough)",
          "schedules are those produced by the Go scheduler with perturbation at the backend boundary; duplicates (DUP) are ignored for first-arrival order", "2-C15"),
  "C09": ("fault_enumeration", "offline checkers over the recorded event log of the client boundary (recording Session wrapper, logging Conn wrapper, scripted broker that logs an acknowledgement before writing it): SavePacket-before-send order, acknowledgement-before-future-success order, session content at rest, retransmission with DUP on resume; resolution poll of every future after the terminal call; goroutine-profile stuck detector around Close/Disconnect; accessor panic trap",
          "all API sequences of length <=3 (sampled length 3 in quick, plus 15000 sampled length-4 sequences with 0-8 concurrent callers in thorough) x 6 acknowledgement behaviours x 4 CONNACK behaviours x 4 terminal events x resume; for a deterministic subset every single client-side connection fault position (incl. the CONNECT) and every Session method failing at its 1st-3rd call; a slow Logger widens the send/bookkeeping window and a future whose acknowledgement the client logged as received must complete",
          "an acknowledgement of another kind carrying the live packet id is accepted as that id's acknowledgement (the client keys futures by id only); futures are polled with a retried 25 ms Wait because Wait selects randomly between a ready future and an expired timer", "2-C09"),
  "C10": ("fault_enumeration", "receiver model driven by what the client received (event log of the client boundary) compared with application callback invocations and acknowledgements written; QoS 0 marker fence through the client's single processor; completion phase retransmitting PUBREL",
-         "all scripted-broker scripts of length <=3 (quick) / <=4 plus sampled length 5 with 3 ids (thorough) over {PUBLISH q2 (dup), PUBLISH q1, PUBLISH q0, PUBREL, drop+resume} x callback plans {nil, error at 1st/2nd/3rd invocation} x both callback modes x every single client-side send fault (each acknowledgement, before/after)",
+         "all scripted-broker scripts of length <=3 (quick) / <=4 plus sampled length 5 with 3 ids (thorough) over {PUBLISH q2 (dup), PUBLISH q1, PUBLISH q0, PUBREL, drop+resume} x callback plans {nil, error at 1st/2nd/3rd invocation} x both callback modes x every single client-side send fault (each acknowledgement, before/after); all scripts of length <=3 over QoS 1 deliveries with and without the dup flag",
          "exactly-once is asserted in the default mode only; rejected deliveries are not counted; what the client received is taken from its connection's receive log (same goroutine as processing)", "2-C10"),
  "C19": ("fault_enumeration", "reassembly of (sender, seq, checksum) payloads at the peer, parsing of the recorded wire bytes into whole sent packets, logical-clock order for 'Send returned nil before Close was called', instrumented carrier with call log and fault injection, bounded-call guards with goroutine-profile confirmation, Go race detector",
          "250/6000 send-and-close cases on the in-memory wire, 40/600 on TCP and 30/400 on WebSocket loopback (1-16 senders, async/sync patterns, flush delays 0-50 ms, close after a PRNG number of sends), every k for each carrier call kind (Read/Write/Close/SetReadDeadline) x 2 flush delays, read timeouts 10-30 ms on all three carriers; 12/180 runs with 1-3 senders blocked on a non-reading peer when the receive side fails (timeout, garbage, oversized packet)",
